@@ -69,7 +69,7 @@ def lstep(l, st):
     """mirror of JobDir.lstep; returns a new JD or None"""
     k = l[0]
     n = st.copy()
-    if k in ("LSubmit", "LTest1", "LPid", "LAdoptEnd", "LTest2", "LReady", "LDepFail", "LSLock", "LTrunc",
+    if k in ("LSubmit", "LTest1", "LPid", "LAdoptEnd", "LTest2", "LReady", "LDepFail", "LSLock", "LAbort", "LTrunc",
              "LWrite", "LSpawn", "LCreatePid", "LWritePid", "LSUnlock", "LWaitEnd", "LCrash"):
         s = l[1]
         c = st.sched(s)
@@ -118,6 +118,11 @@ def lstep(l, st):
                 return None
             n.lock = ("S", s)
             n.scheds[s] = ("STrunc",)
+        elif k == "LAbort":
+            if c[0] != "STrunc":
+                return None
+            n.lock = release(("S", s), st.lock)
+            n.scheds[s] = ("SReady",)
         elif k == "LTrunc":
             if c[0] != "STrunc":
                 return None
@@ -425,8 +430,10 @@ def extract(rows, markers, slot_of, job_of_tag, runs):
             elif name == "LOCK1":
                 add(st, sid, job, ("LSLock", s), o["i"], r["i"])
             elif name == "LOCK2":
-                add(st, sid, job, ("LSUnlock", s), o["i"], r["i"])
+                # leaving the lock without having prepared anything: the start was aborted (token not available)
+                add(st, sid, job, ("LSUnlock", s) if st.get("prepared") else ("LAbort", s), o["i"], r["i"])
             elif name == "PREPARE":
+                st["prepared"] = True
                 add(st, sid, job, ("LTrunc", s), o["i"], r["i"])
                 add(st, sid, job, ("LWrite", s), o["i"], r["i"])
             elif name == "SPAWN":
@@ -442,6 +449,7 @@ def extract(rows, markers, slot_of, job_of_tag, runs):
         if mk == "START":
             add(st, sid, job, ("LReady", s), r["i"], r["i"])
             st["seen_lock"] = 0
+            st["prepared"] = False
         elif mk == "LOCK":
             st["seen_lock"] += 1
             st["open"] = dict(name="LOCK1" if st["seen_lock"] == 1 else "LOCK2", fn=fn, i=r["i"])
@@ -478,7 +486,7 @@ def extract(rows, markers, slot_of, job_of_tag, runs):
                 elif o["name"] == "SPAWN":
                     opt = [("LSpawn", s)]
                 elif o["name"] == "LOCK2":
-                    opt = [("LSUnlock", s)]
+                    opt = [("LSUnlock", s) if st.get("prepared") else ("LAbort", s)]
             if st["wpid_i"] is not None:
                 opt = [("LCreatePid", s), ("LWritePid", s)]
                 o = dict(i=st["wpid_i"])
